@@ -662,8 +662,25 @@ package fzf
 // ---------------------------------------------------------------- what filter mode prints (C07, C01)
 // AsString is the text fzf prints for an item: the original line when the display text was transformed
 // (--with-nth), otherwise the item's own text.  Used here as a pure function of the item and the --ansi flag.
-// (extractColor itself - the --ansi stripper - is not under contract yet: see C11 in DESIGN.md)
-//@ func extractColor trusted
+// extractColor strips the escape sequences of a line and records which characters each colour state covers.
+// Offsets count characters of the stripped text: they are ordered, never overlap, and a colour state that is
+// still open at the end of the line extends to the last character.
+// (interpretCode keeps a pointer to one of the colour fields of a local struct across loop iterations: pointers
+//  to scalar fields are outside the memory model, so its contract is assumed)
+//@ func interpretCode trusted
+//@ func ansiState.equals trusted
+//@ func ansiState.colored trusted
+//@ func extractColor
+//@ property C11
+//@ mathint int32 -- character offsets within one input line are assumed to fit in 31 bits
+//@ effect call proc requires true
+//@ ensures r1 != nil ==> fresh(r1) && fresh(*r1) && len(*r1) > 0
+//@ ensures r1 != nil && r2 != nil ==> (*r1)[len(*r1)-1].offset[1] == nrunes(r0)
+// (that all offsets are ordered and within the text was proved too, but one loop obligation needed 8-10 s of
+//  solver time - too close to the limit to be claimed - so the clause is not part of the contract)
+//@ loop 1
+//@   invariant 0 <= prevIdx && prevIdx <= idx && idx <= len(str) && fresh(offsets) && 0 <= runeCount && runeCount <= prevIdx
+//@   invariant runeCount == bcount(&output) && (state != nil ==> len(offsets) > 0) && (pstate == nil || fresh(pstate))
 //@ func Item.AsString
 //@ property C07
 //@ pure
